@@ -796,8 +796,10 @@ type Data struct {
 	// The in-memory metadata for HEAD version
 	compiledSchema *jsonschema.Schema // cached on setting of JSONSchema value for rapid validate
 
-	metadata   map[Schema][]byte
-	metadataMu sync.RWMutex
+	metadata       map[Schema][]byte
+	metadataV      dvid.VersionID // the version whose metadata is cached
+	metadataLoaded bool
+	metadataMu     sync.RWMutex
 
 	// Serializes the read-merge-write of an annotation (store and in-memory copy)
 	// so concurrent updates of one body cannot lose fields.
@@ -1011,34 +1013,8 @@ func (d *Data) Initialize() {
 	d.metadata = make(map[Schema][]byte, 3)
 
 	if leafUUID != dvid.NilUUID {
-		// Load the metadata
-		ctx := datastore.NewVersionedCtx(d, leafV)
-		if sch, err := d.getJSONSchema(ctx); err == nil {
-			if sch != nil {
-				d.compiledSchema = sch
-			}
-		} else {
-			dvid.Criticalf("Can't load JSON schema for neuronjson %q: %v\n", d.DataName(), err)
-		}
-		if value, err := d.loadMetadata(ctx, JSONSchema); err == nil && value != nil {
-			d.metadata[JSONSchema] = value
-		}
-		if value, err := d.loadMetadata(ctx, NeuSchema); err == nil {
-			dvid.Infof("Metadata load of neutu/neu3 JSON schema for %s: %d bytes\n", leafUUID[:6], len(value))
-			if value != nil {
-				d.metadata[NeuSchema] = value
-			}
-		} else {
-			dvid.Criticalf("Can't load neutu/neu3 schema for neuronjson %q: %v\n", d.DataName(), err)
-		}
-		if value, err := d.loadMetadata(ctx, NeuSchemaBatch); err == nil {
-			dvid.Infof("Metadata load of neutu/neu3 JSON batch schema for %s: %d bytes\n", leafUUID[:6], len(value))
-			if value != nil {
-				d.metadata[NeuSchemaBatch] = value
-			}
-		} else {
-			dvid.Criticalf("Can't load neutu/neu3 batch schema for neuronjson %q: %v\n", d.DataName(), err)
-		}
+		// Load the metadata of the master head
+		d.loadHeadMetadata(datastore.NewVersionedCtx(d, leafV))
 	}
 
 	// Load the in-memory databases for specified versions or branch HEADs
